@@ -94,3 +94,413 @@ VARIANTS = [
 			wildcardPolicy = (&policyStatement).clone()
 		}'''),
 ]
+
+# ---------------------------------------------------------------------------------------------------------------------
+# Shapes accepted after the generalisation of the rule set (statements followed by role/dataflow). For every shape: one
+# `silent` rewrite of the base tree into the shape, and the same shape with the property broken (`flagged`).
+# ---------------------------------------------------------------------------------------------------------------------
+ERR = 'fmt.Errorf("artifact %q has no applicable oci trust policy statement. Trust policy applicability for a given artifact is determined by registryScopes. To create a trust policy, see: %s", artifactReference, trustPolicyLink)'
+OCI_BODY = '''	var wildcardPolicy *OCITrustPolicy
+	var applicablePolicy *OCITrustPolicy
+	for _, policyStatement := range policyDoc.TrustPolicies {
+		if slices.Contains(policyStatement.RegistryScopes, trustpolicy.Wildcard) {
+			// we need to deep copy because we can't use the loop variable
+			// address. see https://stackoverflow.com/a/45967429
+			wildcardPolicy = (&policyStatement).clone()
+		} else if slices.Contains(policyStatement.RegistryScopes, artifactPath) {
+			applicablePolicy = (&policyStatement).clone()
+		}
+	}
+	if applicablePolicy != nil {
+		// a policy with exact match for registry scope takes precedence over
+		// a wildcard (*) policy.
+		return applicablePolicy, nil
+	} else if wildcardPolicy != nil {
+		return wildcardPolicy, nil
+	} else {
+		return nil, ''' + ERR + '''
+	}
+}
+'''
+PREFIX_HELPER = (O, '// clone returns a pointer to the deep copied [OCITrustPolicy]',
+                 'func hasPrefixScope(scopes []string, p string) bool {\n\tfor _, s := range scopes {\n\t\tif strings.HasPrefix(p, s) {\n\t\t\treturn true\n\t\t}\n\t}\n\treturn false\n}\n\n// clone returns a pointer to the deep copied [OCITrustPolicy]')
+
+# --- shape A: index loop, pointers into the document remembered, `continue` instead of `else`, clone once at the exit, switch
+OCI_DEFER = '''	var wildcardPolicy, applicablePolicy *OCITrustPolicy
+	for i := range policyDoc.TrustPolicies {
+		policyStatement := &policyDoc.TrustPolicies[i]
+		if slices.Contains(policyStatement.RegistryScopes, trustpolicy.Wildcard) {
+			wildcardPolicy = policyStatement
+			continue
+		}
+		if slices.Contains(policyStatement.RegistryScopes, artifactPath) {
+			applicablePolicy = policyStatement
+		}
+	}
+
+	switch {
+	case applicablePolicy != nil:
+		return applicablePolicy.clone(), nil
+	case wildcardPolicy != nil:
+		return wildcardPolicy.clone(), nil
+	}
+	return nil, ''' + ERR + '''
+}
+'''
+def A(name, expect, frm=None, to=None, extra=()):
+    body = OCI_DEFER
+    if frm is not None:
+        assert body.count(frm) == 1, name
+        body = body.replace(frm, to)
+    return dict(name=name, expect=expect, edits=[(O, OCI_BODY, body)] + list(extra))
+VARIANTS += [
+ A('benign-deferred-clone', 'silent'),
+ A('deferred-clone-prefix-match', 'flagged(oci/selection-predicate)',
+   'if slices.Contains(policyStatement.RegistryScopes, artifactPath) {', 'if hasPrefixScope(policyStatement.RegistryScopes, artifactPath) {', [PREFIX_HELPER]),
+ A('deferred-clone-returns-document-pointer', 'flagged(returns-clone)', 'return applicablePolicy.clone(), nil', 'return applicablePolicy, nil'),
+ A('deferred-clone-wildcard-first', 'flagged(oci/precedence)',
+   '\tcase applicablePolicy != nil:\n\t\treturn applicablePolicy.clone(), nil\n\tcase wildcardPolicy != nil:\n\t\treturn wildcardPolicy.clone(), nil\n',
+   '\tcase wildcardPolicy != nil:\n\t\treturn wildcardPolicy.clone(), nil\n\tcase applicablePolicy != nil:\n\t\treturn applicablePolicy.clone(), nil\n'),
+ A('deferred-clone-remembers-first-statement', 'flagged(oci/selection-predicate)', '\t\t\tapplicablePolicy = policyStatement\n', '\t\t\tapplicablePolicy = &policyDoc.TrustPolicies[0]\n'),
+ A('deferred-clone-tests-first-statement', 'flagged(oci/selection-predicate)',
+   'if slices.Contains(policyStatement.RegistryScopes, artifactPath) {', 'if slices.Contains(policyDoc.TrustPolicies[0].RegistryScopes, artifactPath) {'),
+ A('deferred-clone-break-on-wildcard', 'flagged(oci/no-early-exit)', '\t\t\twildcardPolicy = policyStatement\n\t\t\tcontinue\n', '\t\t\twildcardPolicy = policyStatement\n\t\t\tbreak\n'),
+ A('deferred-clone-exact-reset', 'flagged(oci/selection-predicate)',
+   '\t\t\tapplicablePolicy = policyStatement\n\t\t}\n', '\t\t\tapplicablePolicy = policyStatement\n\t\t} else {\n\t\t\tapplicablePolicy = nil\n\t\t}\n'),
+]
+
+# --- shape B: blob search by index, inverted guard + continue, clone of the slice element
+BLOB_NAME_BASE = '''	for _, policyStatement := range policyDoc.TrustPolicies {
+		// exact match
+		if policyStatement.Name == policyName {
+			return (&policyStatement).clone(), nil
+		}
+	}
+'''
+BLOB_GLOBAL_BASE = '''	for _, policyStatement := range policyDoc.TrustPolicies {
+		if policyStatement.GlobalPolicy {
+			return (&policyStatement).clone(), nil
+		}
+	}
+'''
+BLOB_NAME_IDX = '''	for i := range policyDoc.TrustPolicies {
+		if policyDoc.TrustPolicies[i].Name != policyName {
+			continue
+		}
+		return policyDoc.TrustPolicies[i].clone(), nil
+	}
+'''
+BLOB_GLOBAL_IDX = '''	for i := range policyDoc.TrustPolicies {
+		if !policyDoc.TrustPolicies[i].GlobalPolicy {
+			continue
+		}
+		return policyDoc.TrustPolicies[i].clone(), nil
+	}
+'''
+VARIANTS += [
+ dict(name='benign-blob-index-loops', expect='silent', edits=[(B, BLOB_NAME_BASE, BLOB_NAME_IDX), (B, BLOB_GLOBAL_BASE, BLOB_GLOBAL_IDX)]),
+ dict(name='blob-index-clones-other-element', expect='flagged(blob/by-name)',
+      edits=[(B, BLOB_NAME_BASE, BLOB_NAME_IDX.replace('return policyDoc.TrustPolicies[i].clone(), nil', 'return policyDoc.TrustPolicies[0].clone(), nil'))]),
+ dict(name='blob-index-guard-polarity', expect='flagged(blob/by-name)',
+      edits=[(B, BLOB_NAME_BASE, BLOB_NAME_IDX.replace('.Name != policyName', '.Name == policyName'))]),
+ dict(name='blob-index-global-polarity', expect='flagged(blob/global)',
+      edits=[(B, BLOB_GLOBAL_BASE, BLOB_GLOBAL_IDX.replace('if !policyDoc', 'if policyDoc'))]),
+ dict(name='blob-index-clones-next-element', expect='flagged(blob/global)',
+      edits=[(B, BLOB_GLOBAL_BASE, BLOB_GLOBAL_IDX.replace('return policyDoc.TrustPolicies[i].clone(), nil', 'return policyDoc.TrustPolicies[(i+1)%len(policyDoc.TrustPolicies)].clone(), nil'))]),
+]
+
+# --- shape C: the scan extracted into a helper method without error result; the two membership tests in a classifier
+#     that answers with an enumeration constant; the selection method turns nil into the error
+OCI_HELPER = '''	if policy := policyDoc.selectStatement(artifactPath); policy != nil {
+		return policy, nil
+	}
+	return nil, ''' + ERR + '''
+}
+
+type scopeMatch int
+
+const (
+	scopeMatchNone scopeMatch = iota
+	scopeMatchWildcard
+	scopeMatchExact
+)
+
+func matchRegistryScopes(registryScopes []string, artifactPath string) scopeMatch {
+	if slices.Contains(registryScopes, trustpolicy.Wildcard) {
+		return scopeMatchWildcard
+	}
+	if slices.Contains(registryScopes, artifactPath) {
+		return scopeMatchExact
+	}
+	return scopeMatchNone
+}
+
+func (policyDoc *OCIDocument) selectStatement(artifactPath string) *OCITrustPolicy {
+	var wildcardPolicy *OCITrustPolicy
+	var applicablePolicy *OCITrustPolicy
+	for _, policyStatement := range policyDoc.TrustPolicies {
+		switch matchRegistryScopes(policyStatement.RegistryScopes, artifactPath) {
+		case scopeMatchWildcard:
+			wildcardPolicy = (&policyStatement).clone()
+		case scopeMatchExact:
+			applicablePolicy = (&policyStatement).clone()
+		}
+	}
+	if applicablePolicy != nil {
+		return applicablePolicy
+	}
+	return wildcardPolicy
+}
+'''
+def C(name, expect, frm=None, to=None, extra=()):
+    body = OCI_HELPER
+    if frm is not None:
+        assert body.count(frm) == 1, name
+        body = body.replace(frm, to)
+    return dict(name=name, expect=expect, edits=[(O, OCI_BODY, body)] + list(extra))
+VARIANTS += [
+ C('benign-scan-helper-enum-classifier', 'silent'),
+ C('scan-helper-classifier-prefix', 'flagged(oci/selection-predicate)',
+   '\tif slices.Contains(registryScopes, artifactPath) {', '\tif hasPrefixScope(registryScopes, artifactPath) {', [PREFIX_HELPER]),
+ C('scan-helper-classifier-default-exact', 'flagged(oci/selection-predicate)', '\treturn scopeMatchNone\n', '\treturn scopeMatchExact\n'),
+ C('scan-helper-classifier-swapped', 'flagged(oci/precedence)',
+   '\t\treturn scopeMatchWildcard\n\t}\n\tif slices.Contains(registryScopes, artifactPath) {\n\t\treturn scopeMatchExact\n',
+   '\t\treturn scopeMatchExact\n\t}\n\tif slices.Contains(registryScopes, artifactPath) {\n\t\treturn scopeMatchWildcard\n'),
+ C('scan-helper-classifies-first-statement', 'flagged(oci/selection-predicate)',
+   'switch matchRegistryScopes(policyStatement.RegistryScopes, artifactPath) {', 'switch matchRegistryScopes(policyDoc.TrustPolicies[0].RegistryScopes, artifactPath) {'),
+ C('scan-helper-wildcard-first', 'flagged(oci/precedence)',
+   '\tif applicablePolicy != nil {\n\t\treturn applicablePolicy\n\t}\n\treturn wildcardPolicy\n', '\tif wildcardPolicy != nil {\n\t\treturn wildcardPolicy\n\t}\n\treturn applicablePolicy\n'),
+ C('scan-helper-nil-not-refused', 'flagged(oci/precedence)',
+   '\tif policy := policyDoc.selectStatement(artifactPath); policy != nil {\n\t\treturn policy, nil\n\t}\n\treturn nil, ' + ERR + '\n',
+   '\treturn policyDoc.selectStatement(artifactPath), nil\n'),
+ C('scan-helper-gets-path-with-separator', 'flagged(oci/path/value)', 'policyDoc.selectStatement(artifactPath); policy != nil', 'policyDoc.selectStatement(artifactReference[:len(artifactPath)+1]); policy != nil'),
+ C('scan-helper-returns-loop-variable', 'flagged(returns-clone)', '\t\t\tapplicablePolicy = (&policyStatement).clone()\n', '\t\t\tapplicablePolicy = &policyStatement\n'),
+ C('scan-helper-break-on-exact', 'flagged(oci/no-early-exit)', '\t\t\tapplicablePolicy = (&policyStatement).clone()\n', '\t\t\tapplicablePolicy = (&policyStatement).clone()\n\t\t\treturn applicablePolicy\n'),
+]
+
+# --- shape D: blob search in a helper that takes the condition as a predicate; the two methods pass closures
+BLOB_CLONE_DOC = '// clone returns a pointer to the deep copied [BlobTrustPolicy]'
+BLOB_FIRST = '''func (policyDoc *BlobDocument) firstStatement(match func(statement *BlobTrustPolicy) bool) *BlobTrustPolicy {
+	for _, policyStatement := range policyDoc.TrustPolicies {
+		if match(&policyStatement) {
+			return (&policyStatement).clone()
+		}
+	}
+	return nil
+}
+
+'''
+BLOB_NAME_PRED = '''	hasName := func(statement *BlobTrustPolicy) bool {
+		return statement.Name == policyName
+	}
+	if policy := policyDoc.firstStatement(hasName); policy != nil {
+		return policy, nil
+	}
+'''
+BLOB_GLOBAL_PRED = '''	isGlobal := func(statement *BlobTrustPolicy) bool {
+		return statement.GlobalPolicy
+	}
+	if policy := policyDoc.firstStatement(isGlobal); policy != nil {
+		return policy, nil
+	}
+'''
+def D(name, expect, what=None, frm=None, to=None):
+    parts = dict(first=BLOB_FIRST, name=BLOB_NAME_PRED, glob=BLOB_GLOBAL_PRED)
+    if what is not None:
+        assert parts[what].count(frm) == 1, name
+        parts[what] = parts[what].replace(frm, to)
+    return dict(name=name, expect=expect, edits=[(B, BLOB_NAME_BASE, parts['name']), (B, BLOB_GLOBAL_BASE, parts['glob']), (B, BLOB_CLONE_DOC, parts['first'] + BLOB_CLONE_DOC)])
+VARIANTS += [
+ D('benign-blob-predicate-helper', 'silent'),
+ D('blob-predicate-name-fold', 'flagged(blob/by-name)', 'name', 'return statement.Name == policyName', 'return strings.EqualFold(statement.Name, policyName)'),
+ D('blob-predicate-ignores-name', 'flagged(blob/by-name)', 'name', 'return statement.Name == policyName', 'return statement.GlobalPolicy'),
+ D('blob-predicate-captured-name-changed', 'flagged(blob/by-name)', 'name',
+   '\tif policy := policyDoc.firstStatement(hasName); policy != nil {', '\tpolicyName = strings.ToLower(policyName)\n\tif policy := policyDoc.firstStatement(hasName); policy != nil {'),
+ D('blob-predicate-nil-not-refused', 'flagged(blob/not-found)', 'name',
+   '\tif policy := policyDoc.firstStatement(hasName); policy != nil {\n\t\treturn policy, nil\n\t}\n', '\tif policy := policyDoc.firstStatement(hasName); policy != nil || len(policyDoc.TrustPolicies) == 0 {\n\t\treturn policy, nil\n\t}\n'),
+ D('blob-predicate-helper-clones-other', 'flagged(blob/global)', 'first', 'return (&policyStatement).clone()', 'return policyDoc.TrustPolicies[0].clone()'),
+ D('blob-predicate-helper-inverted', 'flagged(blob/by-name)', 'first', 'if match(&policyStatement) {', 'if !match(&policyStatement) {'),
+ D('blob-predicate-helper-fallback-first', 'flagged(blob/not-found)', 'first',
+   '\t}\n\treturn nil\n}', '\t}\n\tif len(policyDoc.TrustPolicies) > 0 {\n\t\treturn policyDoc.TrustPolicies[0].clone()\n\t}\n\treturn nil\n}'),
+ D('blob-predicate-helper-returns-loop-variable', 'flagged(returns-clone)', 'first', 'return (&policyStatement).clone()', 'return &policyStatement'),
+]
+
+# --- shape E: blob search with the standard library's slices.IndexFunc; the element at the index found is cloned
+STD_SLICES = [(B, '\t"strings"\n', '\t"slices"\n\t"strings"\n'), (B, '\t"github.com/notaryproject/notation-go/internal/slices"\n', '')]
+BLOB_NAME_END = BLOB_NAME_BASE + '\treturn nil, fmt.Errorf("no applicable blob trust policy with name %q", policyName)\n'
+BLOB_NAME_IDXFUNC = '''	i := slices.IndexFunc(policyDoc.TrustPolicies, func(policyStatement BlobTrustPolicy) bool {
+		return policyStatement.Name == policyName
+	})
+	if i < 0 {
+		return nil, fmt.Errorf("no applicable blob trust policy with name %q", policyName)
+	}
+	return policyDoc.TrustPolicies[i].clone(), nil
+'''
+BLOB_GLOBAL_IDXFUNC = '''	if i := slices.IndexFunc(policyDoc.TrustPolicies, func(policyStatement BlobTrustPolicy) bool {
+		return policyStatement.GlobalPolicy
+	}); i >= 0 {
+		return policyDoc.TrustPolicies[i].clone(), nil
+	}
+'''
+def E(name, expect, what=None, frm=None, to=None):
+    parts = dict(name=BLOB_NAME_IDXFUNC, glob=BLOB_GLOBAL_IDXFUNC)
+    if what is not None:
+        assert parts[what].count(frm) == 1, name
+        parts[what] = parts[what].replace(frm, to)
+    return dict(name=name, expect=expect, edits=STD_SLICES + [(B, BLOB_NAME_END, parts['name']), (B, BLOB_GLOBAL_BASE, parts['glob'])])
+VARIANTS += [
+ E('benign-blob-indexfunc', 'silent'),
+ E('blob-indexfunc-clones-other-element', 'flagged(blob/by-name)', 'name', 'return policyDoc.TrustPolicies[i].clone(), nil', 'return policyDoc.TrustPolicies[0].clone(), nil'),
+ E('blob-indexfunc-prefix-predicate', 'flagged(blob/by-name)', 'name', 'return policyStatement.Name == policyName', 'return strings.HasPrefix(policyStatement.Name, policyName)'),
+ E('blob-indexfunc-fallback-first', 'flagged(blob/by-name)', 'name',
+   '\tif i < 0 {\n', '\tif i < 0 && len(policyDoc.TrustPolicies) > 0 {\n\t\ti = 0\n\t}\n\tif i < 0 {\n'),
+ E('blob-indexfunc-negated-predicate', 'flagged(blob/global)', 'glob', 'return policyStatement.GlobalPolicy', 'return !policyStatement.GlobalPolicy'),
+ E('blob-indexfunc-found-not-checked', 'flagged(blob/global)', 'glob', '}); i >= 0 {', '}); i >= -1 && len(policyDoc.TrustPolicies) > 0 {\n\t\tif i < 0 {\n\t\t\ti = 0\n\t\t}'),
+]
+
+# --- shape F: byte-oriented spelling of the separator search
+VARIANTS += [
+ dict(name='benign-lastindexbyte', file=O, expect='silent',
+      find='i := strings.LastIndex(artifactReference, "@")', replace="i := strings.LastIndexByte(artifactReference, '@')"),
+ dict(name='path-indexbyte-first-at', file=O, expect='flagged(oci/path)',
+      find='i := strings.LastIndex(artifactReference, "@")', replace="i := strings.IndexByte(artifactReference, '@')"),
+ dict(name='path-lastindexbyte-colon', file=O, expect='flagged(oci/path)',
+      find='i := strings.LastIndex(artifactReference, "@")', replace="i := strings.LastIndexByte(artifactReference, ':')"),
+]
+
+# --- shape G: the path extraction inlined into the selection method
+PATH_CALL = '''	artifactPath, err := getArtifactPathFromReference(artifactReference)
+	if err != nil {
+		return nil, err
+	}
+'''
+PATH_INLINE = '''	digestSeparator := strings.LastIndex(artifactReference, "@")
+	if digestSeparator < 0 {
+		return nil, fmt.Errorf("artifact URI %q could not be parsed, make sure it is the fully qualified oci artifact URI without the scheme/protocol. e.g domain.com:80/my/repository@sha256:digest", artifactReference)
+	}
+	artifactPath := artifactReference[:digestSeparator]
+	if err := validateRegistryScopeFormat(artifactPath); err != nil {
+		return nil, err
+	}
+'''
+def G(name, expect, frm=None, to=None):
+    body = PATH_INLINE
+    if frm is not None:
+        assert body.count(frm) == 1, name
+        body = body.replace(frm, to)
+    return dict(name=name, expect=expect, edits=[(O, PATH_CALL, body)])
+VARIANTS += [
+ G('benign-path-inlined', 'silent'),
+ G('inlined-path-not-validated', 'flagged(oci/path/format-validated)', '\tif err := validateRegistryScopeFormat(artifactPath); err != nil {\n\t\treturn nil, err\n\t}\n', ''),
+ G('inlined-path-first-at', 'flagged(oci/path)', 'strings.LastIndex(artifactReference, "@")', 'strings.Index(artifactReference, "@")'),
+ G('inlined-path-keeps-separator', 'flagged(oci/path/value)', 'artifactPath := artifactReference[:digestSeparator]', 'artifactPath := artifactReference[:digestSeparator+1]'),
+ G('inlined-path-validates-other-value', 'flagged(oci/path/format-validated)', 'validateRegistryScopeFormat(artifactPath)', 'validateRegistryScopeFormat(artifactReference[digestSeparator+1:] + "/x")'),
+ G('inlined-path-lowercased', 'flagged(oci/path/value)', 'artifactPath := artifactReference[:digestSeparator]', 'artifactPath := strings.ToLower(artifactReference[:digestSeparator])'),
+]
+
+# --- shape H: clone with a value receiver: the receiver is already a shallow copy, its reference-typed fields are replaced
+CLONE_OCI_BASE = '''func (t *OCITrustPolicy) clone() *OCITrustPolicy {
+	return &OCITrustPolicy{
+		Name:                  t.Name,
+		SignatureVerification: t.SignatureVerification.clone(),
+		TrustedIdentities:     append([]string(nil), t.TrustedIdentities...),
+		TrustStores:           append([]string(nil), t.TrustStores...),
+		RegistryScopes:        append([]string(nil), t.RegistryScopes...),
+	}
+}
+'''
+CLONE_OCI_VALUE = '''func (t OCITrustPolicy) clone() *OCITrustPolicy {
+	t.SignatureVerification = t.SignatureVerification.clone()
+	t.TrustedIdentities = append([]string(nil), t.TrustedIdentities...)
+	t.TrustStores = append([]string(nil), t.TrustStores...)
+	t.RegistryScopes = append([]string(nil), t.RegistryScopes...)
+	return &t
+}
+'''
+CLONE_BLOB_BASE = '''func (t *BlobTrustPolicy) clone() *BlobTrustPolicy {
+	return &BlobTrustPolicy{
+		Name:                  t.Name,
+		SignatureVerification: t.SignatureVerification.clone(),
+		TrustedIdentities:     append([]string(nil), t.TrustedIdentities...),
+		TrustStores:           append([]string(nil), t.TrustStores...),
+		GlobalPolicy:          t.GlobalPolicy,
+	}
+}
+'''
+CLONE_BLOB_VALUE = '''func (t BlobTrustPolicy) clone() *BlobTrustPolicy {
+	t.SignatureVerification = t.SignatureVerification.clone()
+	t.TrustedIdentities = append([]string(nil), t.TrustedIdentities...)
+	t.TrustStores = append([]string(nil), t.TrustStores...)
+	return &t
+}
+'''
+def H(name, expect, frm=None, to=None):
+    body = CLONE_OCI_VALUE
+    if frm is not None:
+        assert body.count(frm) == 1, name
+        body = body.replace(frm, to)
+    return dict(name=name, expect=expect, edits=[(O, CLONE_OCI_BASE, body), (B, CLONE_BLOB_BASE, CLONE_BLOB_VALUE)])
+VARIANTS += [
+ H('benign-value-receiver-clone', 'silent'),
+ H('value-clone-forgets-scopes', 'flagged(clone/)', '\tt.RegistryScopes = append([]string(nil), t.RegistryScopes...)\n', ''),
+ H('value-clone-shallow-verification', 'flagged(clone/)', '\tt.SignatureVerification = t.SignatureVerification.clone()\n', ''),
+ H('value-clone-append-in-place', 'flagged(clone/)', 'append([]string(nil), t.TrustStores...)', 'append(t.TrustStores[:0], t.TrustStores...)'),
+ H('value-clone-returns-receiver-pointer', 'flagged(clone/)', CLONE_OCI_VALUE, CLONE_OCI_VALUE.replace('func (t OCITrustPolicy) clone()', 'func (t *OCITrustPolicy) clone()').replace('return &t', 'return t')),
+]
+
+# --- attribution of facts: by SSA identity of the statement, not by how a variable is called; captured variables by their only value
+VARIANTS += [
+ D('blob-predicate-captured-name-set-late', 'flagged(blob/by-name)', 'name', BLOB_NAME_PRED, '''	var wanted string
+	hasName := func(statement *BlobTrustPolicy) bool {
+		return statement.Name == wanted
+	}
+	policy := policyDoc.firstStatement(hasName)
+	wanted = policyName
+	if policy != nil {
+		return policy, nil
+	}
+'''),
+ dict(name='blob-shadowed-loop-variable', expect='flagged(blob/by-name)', edits=[(B, BLOB_NAME_BASE, '''	for _, policyStatement := range policyDoc.TrustPolicies {
+		outer := &policyStatement
+		for _, policyStatement := range policyDoc.TrustPolicies {
+			if policyStatement.Name == policyName {
+				return outer.clone(), nil
+			}
+		}
+	}
+''')]),
+ dict(name='oci-shadowed-loop-variable', expect='flagged(oci/selection-predicate)', edits=[(O, '''		} else if slices.Contains(policyStatement.RegistryScopes, artifactPath) {
+			applicablePolicy = (&policyStatement).clone()
+		}
+''', '''		} else {
+			outer := &policyStatement
+			for _, policyStatement := range policyDoc.TrustPolicies {
+				if slices.Contains(policyStatement.RegistryScopes, artifactPath) {
+					applicablePolicy = outer.clone()
+				}
+			}
+		}
+''')]),
+]
+VARIANTS += [
+ dict(name='blob-shadowed-loop-variable-addressed', expect='flagged(blob/by-name)', edits=[(B, BLOB_NAME_BASE, '''	for _, policyStatement := range policyDoc.TrustPolicies {
+		outer := &policyStatement
+		for _, policyStatement := range policyDoc.TrustPolicies {
+			if blobNamed(&policyStatement, policyName) {
+				return outer.clone(), nil
+			}
+		}
+	}
+'''), (B, BLOB_CLONE_DOC, 'func blobNamed(s *BlobTrustPolicy, n string) bool { return s.Name == n }\n\n' + BLOB_CLONE_DOC)]),
+]
+
+# --- a success exit that bypasses the selection (base shape and scan-helper shape)
+BYPASS = '''	if len(policyDoc.TrustPolicies) == 1 {
+		return (&policyDoc.TrustPolicies[0]).clone(), nil
+	}
+'''
+VARIANTS += [
+ dict(name='oci-single-statement-shortcut', expect='flagged(oci/selected-only)', edits=[(O, '\tvar wildcardPolicy *OCITrustPolicy\n\tvar applicablePolicy *OCITrustPolicy\n\tfor _, policyStatement', BYPASS + '\tvar wildcardPolicy *OCITrustPolicy\n\tvar applicablePolicy *OCITrustPolicy\n\tfor _, policyStatement')]),
+ C('scan-helper-single-statement-shortcut', 'flagged(oci/selected-only)',
+   '\tif policy := policyDoc.selectStatement(artifactPath); policy != nil {', BYPASS + '\tif policy := policyDoc.selectStatement(artifactPath); policy != nil {'),
+]
